@@ -1,6 +1,7 @@
 """C17 - grounded predicates: statement construction (structural clauses)."""
 
 import ast
+import os
 import re
 
 from sa.absint import Const, Interp, State, Sym
@@ -291,6 +292,78 @@ def run(chk):
         'table_to_export_map' in norm(x.targets[0].value) and dotted(x.targets[0].slice) == 'name']
   chk.ob('C17-R3', bool(st), None, 'the main query is recorded as table_to_export_map[name]',
          'the executor has no statement for the requested predicate', fi=f.fi)
+
+  # the runners execute pieces of the execution object on their own (logica.py
+  # run: preamble + defines_and_exports + main_predicate_sql; concertina:
+  # preamble, table_to_export_map): each piece is stored with its ${flag}
+  # placeholders substituted before FormattedPredicateSql returns, else the
+  # ATTACH / CREATE TABLE that is executed is not the one that is printed
+  pieces = {}
+  for m_ in (repo.mod('logica.py'), repo.mod('common/concertina_lib.py')):
+    for x in ast.walk(m_.tree):
+      if isinstance(x, ast.Attribute) and isinstance(x.ctx, ast.Load) and \
+          x.attr in ('preamble', 'main_predicate_sql', 'table_to_export_map'):
+        pieces.setdefault(x.attr, os.path.basename(m_.path))
+  if len(pieces) < 3:
+    raise AnalysisError('runners read only %s of the execution object' % sorted(pieces))
+  def direct(e):
+    return any(isinstance(c, ast.Call) and call_tail(c) == 'UseFlagsAsParameters'
+               for c in ast.walk(f.expand(e, 2)))
+  local_assigns = {}
+  for n in f.cfg.stmt_nodes():
+    st = f.cfg.stmt[n]
+    if isinstance(st, (ast.Assign, ast.AugAssign)):
+      for tg in (st.targets if isinstance(st, ast.Assign) else [st.target]):
+        if isinstance(tg, ast.Name):
+          local_assigns.setdefault(tg.id, []).append((n, st))
+  def substituted(e, at):
+    """the value stored at node `at` went through UseFlagsAsParameters: in the
+    expression itself, or - for a local - in an assignment every path to the
+    store passes, after which the local is only extended (never replaced)"""
+    if direct(e):
+      return True
+    if not isinstance(e, ast.Name):
+      return False
+    subs = [(n, st) for n, st in local_assigns.get(e.id, ()) if
+            isinstance(st, ast.Assign) and direct(st.value)]
+    for a_n, a_st in subs:
+      if not f.cfg.must_pass_before(at, [a_n]):
+        continue
+      after = f.cfg.reachable(a_n)
+      replaced = [o for o, ost in local_assigns[e.id] if o != a_n and o in after and
+                  isinstance(ost, ast.Assign) and
+                  not any(isinstance(y, ast.Name) and y.id == e.id for y in ast.walk(ost.value))]
+      if not replaced:
+        return True
+    return False
+  rets = [n for n, r in f.returns() if f.live(n)]
+  loop_of = {}
+  for n in f.cfg.stmt_nodes():
+    st = f.cfg.stmt[n]
+    if isinstance(st, ast.For):
+      for y in st.body:
+        for z in ast.walk(y):
+          loop_of.setdefault(id(z), n)
+  for piece, reader in sorted(pieces.items()):
+    stores = []
+    for n in f.cfg.stmt_nodes():
+      st = f.cfg.stmt[n]
+      if not isinstance(st, ast.Assign):
+        continue
+      for tg in st.targets:
+        base = tg.value if isinstance(tg, ast.Subscript) else tg
+        if (dotted(base) or '').endswith('execution.' + piece) and substituted(st.value, n):
+          # a store per entry inside `for k, v in <piece>.items()` covers the
+          # piece once the loop is passed
+          stores.append(loop_of.get(id(st), n))
+    ok = bool(stores) and all(f.cfg.must_pass_before(r, stores) for r in rets)
+    chk.ob('C17-R3', ok, None,
+           'execution.%s (executed by %s) is stored with its flags substituted '
+           'before FormattedPredicateSql returns' % (piece, reader),
+           'execution.%s keeps its ${flag} placeholders on some path: the runner '
+           'executes e.g. ATTACH DATABASE \'${db}\' - another database than the '
+           'printed script names, so the grounded table is written / read elsewhere'
+           % piece, fi=f.fi)
 
   chk.rule('C17-R4', 'a grounded predicate is never inlined into its reader: '
            'OkInjection is false whenever Ground(p) is present and every '
